@@ -75,7 +75,7 @@ pub fn hs(t: &Torrent, kind: &HsKind, announced_id: &[u8; 20], r: &mut Rng) -> M
         }
         HsKind::WrongId => {
             let mut i = *announced_id;
-            match r.below(3) { 0 => i[0] ^= 1, 1 => i[19] ^= 0x20, _ => { i.copy_from_slice(&r.bytes(20)); } }
+            match r.below(5) { 0 => i[0] ^= 1, 1 => i[19] ^= 0x20, 2 => i[19] ^= 0x01, 3 => i[r.range(8, 19) as usize] ^= 0x02, _ => { i.copy_from_slice(&r.bytes(20)); } }
             Msg::handshake(&ih, &i)
         }
         HsKind::WrongProto => {
@@ -136,7 +136,10 @@ pub fn gen_scenario(r: &mut Rng, seed: u64) -> Scenario {
     for j in 0..r.range(1, 3) as usize {
         let k = 1 + j;
         let incoming = r.chance(1, 2);
-        let announced = peer_id(k);
+        // a third of the announced ids end in bytes that are no valid UTF-8 (ids are binary)
+        let mut announced = peer_id(k);
+        let binary_id = r.chance(1, 3);
+        if binary_id { for b in announced[8..].iter_mut() { *b = 0x80 + r.below(0x40) as u8; } }
         let kind = match r.below(6) { 0 => HsKind::Valid, 1 => HsKind::WrongHash, 2 => if incoming { HsKind::WrongHash } else { HsKind::WrongId }, 3 => HsKind::WrongProto, 4 => HsKind::ShortProto, _ => HsKind::WrongHash };
         // where the handshake sits in an otherwise plausible history
         let position = r.below(5); // 0 first, 1 after some messages, 2 absent, 3 valid then invalid, 4 invalid then valid
